@@ -311,7 +311,12 @@ func (w *fingerprintWriter) writeValue(v ast.Value) {
 		w.writeByte('f')
 		w.writeString(n.Value)
 	case *ast.StringValue:
+		// String contents are arbitrary, so they can contain the
+		// delimiters used by this encoding; length-prefix them so that
+		// ["a,sb"] and ["a","b"] cannot produce the same byte stream.
 		w.writeByte('s')
+		w.writeString(strconv.Itoa(len(n.Value)))
+		w.writeByte(':')
 		w.writeString(n.Value)
 	case *ast.BooleanValue:
 		w.writeByte('b')
